@@ -161,6 +161,19 @@ def run(ctx):
             Do(mk(False))]
         c.gen = {"kind": "frame-around-raw-packet", "a": a, "b": b}
         cases.append(c)
+    # a flow's framing is fixed when it is created: it does not change after client_raw_dgram / server_raw_dgram (which
+    # hand out the UDP part alone), whatever the flow's mode
+    for i in range(8 if ctx.thorough else 4):
+        a, b = rand_ip(r), rand_ip(r)
+        raw = i % 2 == 0
+        c = Case()
+        c.name, c.files, c.text, c.meta = "rawflow%d" % i, {}, None, []
+        c.stmts = [Import("ipv4"), Let("u", Call("ipv4::udp::flow", SOCK(a, 7), SOCK(b, 9), **({"raw": True} if raw else {}))),
+                   Do(Call("u.client_dgram", _x=[STR(b"one")])),
+                   Let("x", Call("u.%s_raw_dgram" % ("client" if i % 4 < 2 else "server"), _x=[STR(b"handed out")])),
+                   Do(Call("u.client_dgram", _x=[STR(b"two")])), Do(Call("u.server_dgram", _x=[STR(b"three")]))]
+        c.gen = {"kind": "flow-mode-after-raw-dgram", "raw": raw}
+        cases.append(c)
     diff.run_both(ctx, "c18", cases)
     byname = {c.name: c for c in cases}
     for c in cases:
@@ -169,6 +182,14 @@ def run(ctx):
             continue
         before = len(ctx.violations)
         ok, recs = common.pcap_records(c.impl.pcap)
+        if c.gen["kind"] == "flow-mode-after-raw-dgram":
+            modes = [diff.frame_is_raw(x[4]) for x in recs]
+            if len(recs) != 3 or modes != [c.gen["raw"]] * 3:
+                ctx.fail("flow-mode-changed", "a %s UDP flow emits records with raw = %s after handing out a raw datagram"
+                         % ("raw" if c.gen["raw"] else "framed", modes), diff.replay_of(c))
+            elif c.impl.pcap != c.model["pcap"]:
+                ctx.fail("frame-differs", "records differ from the model's", diff.replay_of(c), disagreement=True)
+            continue
         if c.gen["kind"] == "frame-around-raw-packet":
             if len(recs) != 3:
                 ctx.fail("eth-frame-wrap-count", "%d records for three statements" % len(recs), diff.replay_of(c))
